@@ -347,6 +347,11 @@ def item_anns(e):
     return e.item_annotations
 
 
+def lit_of(x):
+    from statham.schema.parser import _parse_literal
+    return _parse_literal(x)
+
+
 def prop_for(props, key):
     return props[key]
 
